@@ -253,11 +253,40 @@ where
     E: std::error::Error
         + std::fmt::Debug
         + From<<S as StorageEventLogs>::Error>
+        + From<sos_core::Error>
         + From<sos_backend::Error>
         + Send
         + Sync
         + 'static,
 {
+    // The events that will be rewound must all be in the patch;
+    // otherwise another device appended events after the patch
+    // was computed and the rewind would discard them so answer
+    // with a conflict and the client will compute the patch again
+    if let Some(commit) = &req.commit {
+        let diff_req = DiffRequest {
+            log_type: req.log_type,
+            from_hash: Some(*commit),
+        };
+        let diff = event_diff::<_, E>(&diff_req, storage).await?;
+        let is_stale = diff.patch.iter().any(|record| {
+            !req.patch.iter().any(|r| r.commit() == record.commit())
+        });
+        if is_stale {
+            tracing::warn!(
+                num_records = ?diff.patch.len(),
+                "events_patch::stale_rewind");
+            let checked_patch = CheckedPatch::Conflict {
+                head: diff.checkpoint,
+                contains: None,
+            };
+            return Ok((
+                PatchResponse { checked_patch },
+                MergeOutcome::default(),
+            ));
+        }
+    }
+
     let (checked_patch, outcome, records) = match &req.log_type {
         EventLogType::Identity => {
             let patch = Patch::<WriteEvent>::new(req.patch);
